@@ -9,6 +9,7 @@ import (
 	"github.com/idena-network/idena-go/common"
 	"github.com/idena-network/idena-go/core/appstate"
 	"github.com/idena-network/idena-go/core/state"
+	"github.com/idena-network/idena-go/core/validators"
 	dbm "github.com/tendermint/tm-db"
 	"pgregory.net/rapid"
 
@@ -48,6 +49,7 @@ func diffImage(a, b map[string]string) string {
 type snapshot struct {
 	hash   common.Hash
 	values map[common.Address]string
+	vc     []string // validator view derived from the registry committed at that height
 }
 
 func record(w *sim.World, s *appstate.AppState) map[common.Address]string {
@@ -209,6 +211,13 @@ func viewsTest(t *testing.T, steps int) {
 				if !known {
 					continue
 				}
+				now := w.DescribeVC(v.ValidatorsCache)
+				if len(now) > len(want.vc) {
+					now = now[:len(want.vc)] // actors created after that height are not in the recorded view
+				}
+				if d := sim.DiffLines(now, want.vc); len(d) > 0 {
+					t.Fatalf("Readonly(%d) (head %d, reorgs so far %d): validator view differs from the one derived from the registry committed at that height: %v", hh, head, reorgs, d)
+				}
 				got := record(w, v)
 				for a, s := range want.values {
 					if got[a] != s {
@@ -232,7 +241,9 @@ func viewsTest(t *testing.T, steps int) {
 			if err != nil {
 				t.Fatalf("readonly: %v", err)
 			}
-			committed[blk.Height()] = snapshot{blk.Hash(), record(h.W, &appstate.AppState{State: ro, IdentityState: ids})}
+			vc := validators.NewValidatorsCache(ids, ro.GodAddress())
+			vc.Load()
+			committed[blk.Height()] = snapshot{blk.Hash(), record(h.W, &appstate.AppState{State: ro, IdentityState: ids}), h.W.DescribeVC(vc)}
 		}
 		h := sim.RunHistory(t, opt)
 		if viewWrites > 0 {
